@@ -167,6 +167,15 @@ PROPS = {
         assumptions=COMMON_ASSUME + ["when several failure classes are present any of them may be reported, but with that class' first address inside the request"],
         targets=[enum("enum", ["props/C02_enum.cpp"], qs=12, ts=16)],
     ),
+    "C03": dict(
+        level="exploration",
+        exhaustive_possible=False,
+        rule="cases are (table, content, query) tuples: every (address, length) window of each generated table as block read and as iteration range with every stop script; non-trivial = "
+             "a read that starts mid-area in a write-only area or crosses an area edge, or an iteration whose start lies in a gap/hole/empty area or strictly inside a multi-word register; "
+             "distinct by (table, window)",
+        assumptions=COMMON_ASSUME + ["address windows never wrap around 2^32"],
+        targets=[enum("enum", ["props/C03_enum.cpp"], qs=12, ts=16)],
+    ),
 }
 
 NOTE_COMMON = ("trusted: clang/ASan/UBSan, the harness and its reference model; the search is bounded (see evidence: tier bounds and counts); "
@@ -274,6 +283,14 @@ MANIFEST_TEXT = {
         level_text="For every generated table all windows of the flat address space (including starts in holes, partial overlaps of 32/64-bit registers at either end, spans over adjacent "
                    "areas) are written with patterns built to cross constraint bounds through only the words inside the window; the model overlays the words, re-decodes every overlapped "
                    "register and predicts acceptance or the set of failure classes with their first addresses; all storage, touched marks and the caller's exact-size buffer are checked.",
+        level_note=NOTE_COMMON,
+    ),
+    "C03": dict(
+        engine="enum (generated tables x exhaustive windows)",
+        technique="model-based testing: exhaustive (address, length) windows per generated table for block reads (canary + ASan-exact buffer) and for range iteration with every callback stop script",
+        level_text="For every generated table each window of the flat address space is read into an exact-size buffer guarded by canary words and compared with the model (zero for write-only "
+                   "areas, first unmapped address otherwise); each window is also iterated with callbacks that stop positively or negatively at every position, and the visited handles are "
+                   "compared with the registers the model says overlap the range.",
         level_note=NOTE_COMMON,
     ),
 }
